@@ -65,6 +65,8 @@ type vfKeyState struct {
 	admCause    string
 	admReported bool
 	lastCause   string
+	endKind     string // what ended the last hold on this key: unlock | expiry | rollback
+	admEndKind  string
 }
 
 func (k *vfKeyState) depth() int {
@@ -177,6 +179,10 @@ type vfShadow struct {
 	// which keys were touched in this step (C04 evaluation)
 	touched map[vfKeyId]bool
 	noMs bool
+	// value oracle (C15): evApplied is set by the reply handlers when the
+	// reply means that the request's value operation was executed
+	evApplied bool
+	onValue   func(kid vfKeyId, k *vfKeyState, r *vfReq, ev *vfEvent, applied bool)
 }
 
 func vfNewShadow(e *vfEngine) *vfShadow {
@@ -329,6 +335,7 @@ func (s *vfShadow) onEvent(ev *vfEvent) {
 	kid := vfKeyId{op.Db, op.Key}
 	k := s.key(kid)
 	s.touched[kid] = true
+	s.evApplied = false
 	if ev.Result == protocol.RESULT_EXPRIED {
 		s.notices[r.ID]++
 		s.handleExpried(k, r, ev)
@@ -348,6 +355,9 @@ func (s *vfShadow) onEvent(ev *vfEvent) {
 		}
 	}
 	s.stats["res_"+vfResName(ev.Result)]++
+	if s.onValue != nil {
+		s.onValue(kid, k, r, ev, s.evApplied)
+	}
 	// C17: counts carried by the reply
 	if s.checkLCount {
 		s.checkCounts(k, r, ev)
@@ -434,6 +444,7 @@ func (s *vfShadow) handleExpried(k *vfKeyState, r *vfReq, ev *vfEvent) {
 	}
 	k.removeHold(h)
 	s.stats["expiries"]++
+	k.endKind = "expiry"
 	s.noteCause(k, "hold-end")
 }
 
@@ -500,6 +511,7 @@ func (s *vfShadow) handleLockReply(k *vfKeyState, r *vfReq, ev *vfEvent) {
 				s.stats["relock_query"]++
 				return // query: nothing changes
 			}
+			s.evApplied = true
 			h.Depth++
 			h.Count, h.Rcount, h.Prio = op.Count, op.Rcount, prio
 			s.setDeadline(h, op, true)
@@ -530,6 +542,7 @@ func (s *vfShadow) handleLockReply(k *vfKeyState, r *vfReq, ev *vfEvent) {
 			if w.Cancelled {
 				s.report("C02", "cancelled-then-granted", "", "request %d was cancelled and then granted", r.ID)
 			}
+			s.evApplied = true
 			k.removeWaiter(w)
 			s.stats["grants_from_queue"]++
 			if op.Expried > 0 {
@@ -539,6 +552,7 @@ func (s *vfShadow) handleLockReply(k *vfKeyState, r *vfReq, ev *vfEvent) {
 			}
 			return
 		}
+		s.evApplied = true
 		if op.Expried > 0 {
 			live := 0
 			for _, o := range k.Waiters {
@@ -561,6 +575,7 @@ func (s *vfShadow) handleLockReply(k *vfKeyState, r *vfReq, ev *vfEvent) {
 		}
 		if op.Flag&protocol.LOCK_FLAG_UPDATE_WHEN_LOCKED != 0 {
 			if h := k.hold(ev.LockId); h != nil && !h.AckPending {
+				s.evApplied = true
 				s.applyUpdate(k, h, r)
 			}
 		}
@@ -755,6 +770,8 @@ func (s *vfShadow) handleUnlockReply(k *vfKeyState, r *vfReq, ev *vfEvent) {
 		}
 		h.Depth = got
 		s.stats["unlocks"]++
+		s.evApplied = true
+		k.endKind = "unlock"
 		if got == 0 {
 			k.removeHold(h)
 			s.stats["holds_ended_by_unlock"]++
@@ -820,6 +837,7 @@ func (s *vfShadow) evalAdmissible(k *vfKeyState, seq int) {
 		if k.admSince < 0 {
 			k.admSince = seq
 			k.admCause = k.lastCause
+			k.admEndKind = k.endKind
 		}
 	} else {
 		k.admSince = -1
@@ -848,6 +866,9 @@ func (s *vfShadow) quiescent() {
 			}
 			s.report("C04", "quiescent-admissible-head", sig, "db%d/k%d: at a quiescent moment the head queued request %d (Count=%d prio=%d) is admissible (holds depth=%d, oldest Count=%d); cause=%s", kid.Db, kid.Key, w.Req, w.Count, w.Prio, k.depth(), oldest, cause)
 			s.stats["c04_adm_"+cause]++
+			if cause == "hold-end" && k.admEndKind == "expiry" {
+				s.report("C06", "waiters-not-served-after-expiry", "", "db%d/k%d: a hold was ended by time but the head queued request %d (Count=%d) which is now admissible was not granted", kid.Db, kid.Key, w.Req, w.Count)
+			}
 		}
 		delete(s.touched, kid)
 	}
